@@ -11,54 +11,312 @@
 (***************************************************************************)
 EXTENDS Authboss
 
+V(name, cond) == IF cond THEN {} ELSE {name}     \* clause `name` must satisfy `cond`
+
 Changed(S, S2, b, k) == S.sess[b][k] # S2.sess[b][k]
+IsReq(e) == e.act \notin EnvActs
+Flushed(r) == r.class \notin {"errorSilent", "none", "panic"}
 
 InteractiveLogins == {"LoginPost", "OtpLoginPost", "OAuthCallback", "RecoverEnd", "TotpValidate", "SmsValidate"}
+FullLogins == {"LoginPost", "OtpLoginPost", "OAuthCallback", "TotpValidate", "SmsValidate"}
+StampingLogins == {"LoginPost", "OtpLoginPost", "RecoverEnd", "TotpValidate", "SmsValidate"}
 
-\* the browser a request acts for; environment events act for no browser
-ReqBrowser(e) == IF e.act \in EnvActs THEN NONE ELSE e.b
+LoggedInAs(S, S2, e, u) == IsReq(e) /\ Changed(S, S2, e.b, "uid") /\ S2.sess[e.b].uid = u /\ u # NONE
+
+RmOwner(S, id) == IF \E t \in S.rm : t.id = id THEN (CHOOSE t \in S.rm : t.id = id).o ELSE NONE
+RmIds(S) == {t.id : t \in S.rm}
+
+\* the remember middleware authenticates this request from its cookie
+RmAuth(S, c, e) ==
+  IsReq(e) /\ Has(c, "remember") /\ S.sess[e.b].uid = NONE /\ S.cookie[e.b] >= 1
+  /\ S.cookie[e.b] \in RmIds(S) /\ <<"rm", S.cookie[e.b]>> \notin S.spent
+
+RcOk(S, u, e) == e.rc >= 1 /\ e.g = S.db[u].rcg /\ e.rc \in S.db[u].rcLeft /\ <<"rc", e.g * 100 + e.rc>> \notin S.spent
+TotpCodeOk(S, u, e) == e.rc = 0 /\ e.code \in 1..3 /\ e.tok >= 1 /\ e.tok = S.db[u].totp
+SmsCodeOk(S, u, e, phone) == e.rc = 0 /\ e.code >= 1 /\ phone # 0 /\ e.code = S.sess[e.b].smsCode /\ <<e.code, phone>> \in S.scPhone
 
 -----------------------------------------------------------------------------
 (* C01 - a session is only issued against a valid credential of that user *)
 
-RmOwner(S, id) == IF \E t \in S.rm : t.id = id THEN (CHOOSE t \in S.rm : t.id = id).o ELSE NONE
-
-C01_Justified(S, S2, c, e, b) ==
-  LET u == S2.sess[b].uid IN
+C01_Justified(S, S2, c, e, u) ==
+  LET b == e.b IN
   \/ e.act = "LoginPost" /\ e.pid = u /\ e.pw >= 1 /\ e.pw = S.db[u].pw /\ S.db[u].ex
-  \/ e.act = "OtpLoginPost" /\ e.pid = u /\ e.tok >= 1 /\ e.tok \in S.db[u].otps
+  \/ e.act = "OtpLoginPost" /\ e.pid = u /\ e.tok >= 1 /\ e.tok \in S.db[u].otps /\ <<"otp", e.tok>> \notin S.spent
   \/ e.act = "RecoverEnd" /\ c.recoverLogin /\ e.tok >= 1 /\ S.db[u].rTok = e.tok /\ S.now <= S.db[u].rExp
+       /\ <<"rt", e.tok>> \notin S.spent
   \/ e.act = "RegisterPost" /\ e.pid = u /\ ~S.db[u].ex /\ S2.db[u].ex
-  \/ e.act = "OAuthCallback" /\ e.tok >= 1 /\ S.sess[b].oState = e.tok
-  \/ e.act = "TotpValidate" /\ S.sess[b].uid = NONE /\ S.sess[b].totpPend = u
-  \/ e.act = "SmsValidate" /\ S.sess[b].uid = NONE /\ S.sess[b].smsPend = u
-  \/ Has(c, "remember") /\ S.sess[b].uid = NONE /\ S.cookie[b] >= 1 /\ RmOwner(S, S.cookie[b]) = u
-
-C01 == "C01.sessionOnlyByCredential"
-C01x == "C01.otherBrowserUntouched"
+  \/ e.act = "OAuthCallback" /\ e.tok >= 1 /\ S.sess[b].oState = e.tok /\ e.outcome \in {"x", "y"}
+       /\ u = OPid(e.prov, e.outcome)
+  \/ e.act = "TotpValidate" /\ ValidateUser(Ctx0(S, b), S.sess[b].totpPend) = u
+       /\ (S.sess[b].uid = NONE \/ S.sess[b].uid = u)
+  \/ e.act = "SmsValidate" /\ ValidateUser(Ctx0(S, b), S.sess[b].smsPend) = u
+       /\ (S.sess[b].uid = NONE \/ S.sess[b].uid = u)
+  \/ RmAuth(S, c, e) /\ RmOwner(S, S.cookie[b]) = u
 
 C01_V(S, S2, c, e) ==
-     {C01 : b \in {x \in Browsers : x = ReqBrowser(e) /\ Changed(S, S2, x, "uid")
-                                     /\ S2.sess[x].uid # NONE /\ ~C01_Justified(S, S2, c, e, x)}}
-  \cup {C01x : b \in {x \in Browsers : x # ReqBrowser(e) /\ e.act \notin EnvActs
-                                     /\ S.sess[x] # S2.sess[x]}}
+  LET b == e.b IN
+  (IF IsReq(e)
+   THEN V("C01.sessionOnlyByCredential",
+          Changed(S, S2, b, "uid") /\ S2.sess[b].uid # NONE => C01_Justified(S, S2, c, e, S2.sess[b].uid))
+        \cup V("C01.otherBrowserUntouched", \A x \in Browsers \ {b} : S.sess[x] = S2.sess[x] /\ S.cookie[x] = S2.cookie[x])
+   ELSE {})
+
+-----------------------------------------------------------------------------
+(* C02 - with a second factor enabled, the password alone never yields a session *)
+
+Has2FA(c, ur) == (Has(c, "totp") /\ ur.totp # 0) \/ (Has(c, "sms") /\ ur.sms # 0)
+
+C02_V(S, S2, c, e) ==
+  IF ~IsReq(e) \/ ~Changed(S, S2, e.b, "uid") \/ S2.sess[e.b].uid = NONE THEN {}
+  ELSE LET u == S2.sess[e.b].uid IN
+       V("C02.primaryOnlyParks", e.act \in {"LoginPost", "OtpLoginPost", "RecoverEnd"} => ~Has2FA(c, S.db[u]))
+       \cup V("C02.secondStepOwnFactor",
+              (e.act = "TotpValidate" => TotpCodeOk(S, u, e) \/ RcOk(S, u, e))
+              /\ (e.act = "SmsValidate" => SmsCodeOk(S, u, e, S.db[u].sms) \/ RcOk(S, u, e)))
+
+-----------------------------------------------------------------------------
+(* C03 - locked / unconfirmed accounts cannot complete a login or use protected routes *)
+
+Blocked(c, ur, now) == (Has(c, "lock") /\ Locked(ur, now)) \/ (Has(c, "confirm") /\ ~ur.conf)
+
+C03_V(S, S2, c, e, r) ==
+  (IF IsReq(e) /\ e.act \in InteractiveLogins /\ Changed(S, S2, e.b, "uid") /\ S2.sess[e.b].uid # NONE
+        /\ ~RmAuth(S, c, e)
+   THEN LET u == S2.sess[e.b].uid IN
+        V("C03.noLoginWhileBlocked", S.db[u].ex => ~Blocked(c, S.db[u], S.now))
+   ELSE {})
+  \cup (IF e.act = "Probe" /\ r.ran /\ r.seenUser \in Pids
+        THEN V("C03.middlewareBlocks", ~Blocked(c, S2.db[r.seenUser], S2.now))
+        ELSE {})
+
+-----------------------------------------------------------------------------
+(* C04 - counting and lockout follow the thresholds exactly (the reference    *)
+(* automaton is LockUpdate / LockSuccess of Authboss.tla; its conformance is  *)
+(* the footprint db.att / db.winLeft / db.lockLeft)                           *)
+
+C04_V(S, S2, c, e) ==
+  IF ~Has(c, "lock") THEN {}
+  ELSE
+  (IF e.act = "LoginPost" /\ e.pid \in Pids /\ S.db[e.pid].ex /\ e.pw >= 1 /\ e.pw = S.db[e.pid].pw
+   THEN V("C04.correctNeverCounts", S2.db[e.pid].att <= S.db[e.pid].att
+                                    /\ (Locked(S2.db[e.pid], S2.now) => Locked(S.db[e.pid], S.now)))
+   ELSE {})
+  \cup (IF e.act = "AdminUnlock"
+        THEN V("C04.unlockClears", S2.db[e.pid].att = 0 /\ ~Locked(S2.db[e.pid], S2.now))
+        ELSE {})
+  \cup V("C04.lockedAtThreshold",
+         \A u \in Pids : S2.db[u].att > S.db[u].att /\ S2.db[u].att >= c.lockAfter
+                          => S2.db[u].lockedUntil = S2.now + c.lockDuration)
+  \cup V("C04.countsByOne", \A u \in Pids : S2.db[u].att > S.db[u].att => S2.db[u].att = S.db[u].att + 1 \/ S2.db[u].att = 1)
+
+-----------------------------------------------------------------------------
+(* C05 - confirm and recovery links work once, only for their account, unmodified *)
+
+\* the handler itself left the session identity alone (the global remember /
+\* expire middlewares in front of it may have authenticated or expired it)
+UidSameModuloMW(S, S2, c, e) ==
+  \/ ~Changed(S, S2, e.b, "uid")
+  \/ RmAuth(S, c, e) /\ S2.sess[e.b].uid = RmOwner(S, S.cookie[e.b])
+  \/ Has(c, "expire") /\ S2.sess[e.b].uid = NONE /\ Expired(S.sess[e.b], c, S.now)
+
+ConfirmOwner(S, t) == IF t >= 1 /\ \E u \in Pids : S.db[u].ex /\ S.db[u].cTok = t
+                      THEN CHOOSE u \in Pids : S.db[u].ex /\ S.db[u].cTok = t ELSE NONE
+RecoverOwner(S, t) == IF t >= 1 /\ \E u \in Pids : S.db[u].ex /\ S.db[u].rTok = t
+                      THEN CHOOSE u \in Pids : S.db[u].ex /\ S.db[u].rTok = t ELSE NONE
+
+C05_V(S, S2, c, e) ==
+  IF e.act = "ConfirmGet" /\ Has(c, "confirm") THEN
+       LET o == ConfirmOwner(S, e.tok)
+           ok == o # NONE /\ <<"ct", e.tok>> \notin S.spent
+       IN  IF ok
+           THEN V("C05.acceptConfirms", S2.db[o].conf /\ S2.db[o].cTok = 0)
+                \cup V("C05.onlyOwner", \A v \in Pids \ {o} : S2.db[v] = S.db[v])
+           ELSE V("C05.rejectIsNoOp", S2.db = S.db /\ UidSameModuloMW(S, S2, c, e))
+  ELSE IF e.act = "RecoverEnd" /\ Has(c, "recover") THEN
+       LET o == RecoverOwner(S, e.tok)
+           ok == o # NONE /\ e.valid /\ S.now <= S.db[o].rExp /\ <<"rt", e.tok>> \notin S.spent
+       IN  IF ok
+           THEN V("C05.acceptSpends", S2.db[o].rTok = 0 /\ S2.db[o].pw = e.pw)
+                \cup V("C05.onlyOwner", \A v \in Pids \ {o} : S2.db[v] = S.db[v])
+           ELSE V("C05.rejectIsNoOp", S2.db = S.db /\ UidSameModuloMW(S, S2, c, e)
+                                      /\ (S2.rm = S.rm \/ RmAuth(S, c, e)))
+  ELSE IF e.act = "RecoverStart" /\ Has(c, "recover") /\ e.valid /\ e.pid \in Pids /\ S.db[e.pid].ex THEN
+       V("C05.supersession", S2.db[e.pid].rTok >= 1 /\ S2.db[e.pid].rTok # S.db[e.pid].rTok
+                             /\ S2.db[e.pid].rExp = S2.now + c.recoverTTL)
+       \cup V("C05.onlyOwner", \A v \in Pids \ {e.pid} : S2.db[v] = S.db[v])
+  ELSE {}
+
+-----------------------------------------------------------------------------
+(* C06 - a password change revokes the old password, recovery link, remember tokens *)
+
+C06_V(S, S2, c, e) ==
+  LET u == IF e.act = "UpdatePassword" THEN e.pid
+           ELSE IF e.act = "RecoverEnd" /\ Has(c, "recover") /\ e.valid
+                   /\ RecoverOwner(S, e.tok) # NONE /\ S.now <= S.db[RecoverOwner(S, e.tok)].rExp
+                   /\ <<"rt", e.tok>> \notin S.spent
+                THEN RecoverOwner(S, e.tok) ELSE NONE
+  IN IF u = NONE THEN {}
+     ELSE V("C06.newPasswordSet", S2.db[u].pw = e.pw)
+          \cup V("C06.rememberRevoked", \A t \in S.rm : t.o = u => t \notin S2.rm)
+          \cup V("C06.othersUntouched", \A v \in Pids \ {u} : S2.db[v].pw = S.db[v].pw /\ S2.db[v].rTok = S.db[v].rTok
+                                           /\ ({t \in S2.rm : t.o = v /\ t \in S.rm} = {t \in S.rm : t.o = v}
+                                               \/ (IsReq(e) /\ RmAuth(S, c, e) /\ RmOwner(S, S.cookie[e.b]) = v)))
+          \cup (IF e.act = "RecoverEnd" THEN V("C06.tokenSpent", S2.db[u].rTok = 0) ELSE {})
+
+-----------------------------------------------------------------------------
+(* C07 - remember-me cookies: single use, bound to one user, half-auth only *)
+
+C07_V(S, S2, c, e, r) ==
+  IF ~IsReq(e) \/ ~Has(c, "remember") THEN {}
+  ELSE LET b == e.b
+           auth == RmAuth(S, c, e)
+           old == S.cookie[b]
+       IN
+       (IF auth THEN V("C07.singleUse", old \notin RmIds(S2)) ELSE {})
+       \cup (IF auth /\ e.act = "Probe" /\ Flushed(r)
+             THEN V("C07.boundToUser", S2.sess[b].uid = RmOwner(S, old))
+                  \cup V("C07.halfOnly", S2.sess[b].half)
+                  \cup V("C07.rotated", S2.cookie[b] >= 1 /\ S2.cookie[b] # old /\ RmOwner(S2, S2.cookie[b]) = RmOwner(S, old))
+             ELSE {})
+       \cup (IF ~auth /\ e.act = "Probe" /\ S.sess[b].uid = NONE /\ S.cookie[b] # 0 /\ Flushed(r)
+             THEN V("C07.badCookieDeleted", S2.cookie[b] = 0 /\ S2.sess[b].uid = NONE)
+             ELSE {})
+       \cup V("C07.issuedOnlyOnRequest",
+              S2.cookie[b] # S.cookie[b] /\ S2.cookie[b] # 0
+                 => auth \/ (e.act \in {"LoginPost", "OtpLoginPost"} /\ e.rm)
+                         \/ (e.act = "OAuthCallback" /\ S.sess[b].oHas /\ S.sess[b].oRm))
+       \cup (IF S.sess[b].uid # NONE /\ e.act = "Probe"
+             THEN V("C07.idleWhenLoggedIn", S2.cookie[b] = S.cookie[b] /\ S2.rm = S.rm) ELSE {})
+       \cup (IF e.act \in FullLogins /\ Changed(S, S2, b, "uid") /\ S2.sess[b].uid # NONE /\ ~auth
+             THEN V("C07.fullLoginClearsHalf", ~S2.sess[b].half) ELSE {})
+
+-----------------------------------------------------------------------------
+(* C09 - an idle session expires and is hidden downstream *)
+
+C09_V(S, S2, c, e, r) ==
+  IF ~IsReq(e) \/ ~Has(c, "expire") THEN {}
+  ELSE LET b == e.b
+           live == S.sess[b].uid # NONE
+           exp == live /\ Expired(S.sess[b], c, S.now)
+       IN
+       (IF exp /\ e.act = "Probe"
+        THEN V("C09.servedUnauthenticated", ~r.ran /\ r.seenUser = NONE)
+        ELSE {})
+       \cup (IF exp /\ Flushed(r) /\ e.act \notin InteractiveLogins \cup {"RegisterPost"}
+             THEN V("C09.expiredWiped", \A k \in SessKeys \ WL(c) : S2.sess[b][k] = EmptySess[k])
+                  \cup V("C09.whitelistKept", \A k \in SessKeys \cap WL(c) : S2.sess[b][k] = S.sess[b][k])
+             ELSE {})
+       \cup (IF live /\ ~exp /\ Flushed(r) /\ S2.sess[b].uid # NONE
+             THEN V("C09.liveRefreshed", S2.sess[b].lastAct = S2.now) ELSE {})
+       \cup (IF e.act \in StampingLogins /\ Changed(S, S2, b, "uid") /\ S2.sess[b].uid # NONE
+             THEN V("C09.loginStamps", S2.sess[b].lastAct = S2.now) ELSE {})
+       \cup (IF e.act = "Probe" /\ r.ran
+             THEN V("C09.ranOnlyIfLive", live /\ ~exp) ELSE {})
 
 -----------------------------------------------------------------------------
 (* C10 - logout leaves nothing behind *)
 
 C10_V(S, S2, c, e) ==
-  IF e.act = "Logout" /\ Has(c, "logout") /\ e.method = c.logoutMethod
-  THEN {"C10.sessionWiped" : k \in {x \in SessKeys : x \notin WL(c) /\ S2.sess[e.b][x] # EmptySess[x]}}
-       \cup {"C10.whitelistKept" : k \in {x \in SessKeys \cap WL(c) : S2.sess[e.b][x] # S.sess[e.b][x]}}
-       \cup (IF S2.cookie[e.b] # 0 THEN {"C10.cookieRemoved"} ELSE {})
-  ELSE IF e.act = "Logout"
-  THEN (IF S2.sess[e.b].uid # S.sess[e.b].uid /\ ~Has(c, "remember") /\ ~Has(c, "expire")
-        THEN {"C10.onlyConfiguredMethod"} ELSE {})
-  ELSE {}
+  IF e.act # "Logout" THEN {}
+  ELSE IF Has(c, "logout") /\ e.method = c.logoutMethod
+  THEN V("C10.sessionWiped", \A k \in SessKeys \ WL(c) : S2.sess[e.b][k] = EmptySess[k])
+       \cup V("C10.whitelistKept", \A k \in SessKeys \cap WL(c) : S2.sess[e.b][k] = S.sess[e.b][k])
+       \cup V("C10.cookieRemoved", S2.cookie[e.b] = 0)
+  ELSE V("C10.onlyConfiguredMethod",
+         \A k \in SessKeys \ {"uid", "half", "lastAct"} : S2.sess[e.b][k] = S.sess[e.b][k] \/ Has(c, "expire"))
+
+-----------------------------------------------------------------------------
+(* C12 - one-time secrets are consumed by the login they enable, never work twice *)
+
+C12_V(S, S2, c, e) ==
+  V("C12.atMostFive", \A u \in Pids : Cardinality(S2.db[u].otps) <= 5)
+  \cup (IF e.act = "OtpLoginPost" /\ LoggedInAs(S, S2, e, e.pid) /\ ~RmAuth(S, c, e)
+        THEN V("C12.otpOnce", e.tok \notin S2.db[e.pid].otps /\ <<"otp", e.tok>> \notin S.spent
+                              /\ e.tok \in S.db[e.pid].otps)
+        ELSE {})
+  \cup (IF e.act \in {"TotpValidate", "SmsValidate"} /\ e.rc # 0 /\ IsReq(e)
+           /\ Changed(S, S2, e.b, "uid") /\ S2.sess[e.b].uid # NONE /\ ~RmAuth(S, c, e)
+        THEN LET u == S2.sess[e.b].uid IN
+             V("C12.rcOnce", RcOk(S, u, e) /\ e.rc \notin S2.db[u].rcLeft)
+        ELSE {})
+  \cup (IF e.act = "SmsValidate" /\ IsReq(e) /\ Changed(S, S2, e.b, "uid") /\ S2.sess[e.b].uid # NONE /\ ~RmAuth(S, c, e)
+        THEN V("C12.smsOnce", S2.sess[e.b].smsCode = 0) ELSE {})
+  \cup (IF e.act = "TotpValidate" /\ c.totpOneTime /\ e.rc = 0 /\ IsReq(e)
+           /\ Changed(S, S2, e.b, "uid") /\ S2.sess[e.b].uid # NONE /\ ~RmAuth(S, c, e)
+        THEN V("C12.totpNoImmediateReplay", TotpEnc(e) # S.db[S2.sess[e.b].uid].totpLast) ELSE {})
+
+-----------------------------------------------------------------------------
+(* C13 - only the fully authenticated owner, proving the factor, changes 2FA settings *)
+
+C13_V(S, S2, c, e) ==
+  LET ch == {u \in Pids : S.db[u].ex /\ (S2.db[u].totp # S.db[u].totp \/ S2.db[u].sms # S.db[u].sms
+                                          \/ S2.db[u].rcg # S.db[u].rcg)}
+  IN
+  (IF ch = {} THEN {}
+   ELSE IF ~IsReq(e) THEN {"C13.changeAuthorised"}
+   ELSE LET b == e.b IN
+        V("C13.changeAuthorised", \A u \in ch : S.sess[b].uid = u /\ ~S.sess[b].half)
+        \cup V("C13.enableNeedsProof",
+               \A u \in ch :
+                 (S2.db[u].totp # S.db[u].totp /\ S2.db[u].totp # 0
+                    => e.act = "TotpConfirm" /\ S.sess[b].totpSetup = S2.db[u].totp /\ e.tok = S2.db[u].totp /\ e.code \in 1..3)
+                 /\ (S2.db[u].sms # S.db[u].sms /\ S2.db[u].sms # 0
+                    => e.act = "SmsConfirm" /\ S.sess[b].smsNum = S2.db[u].sms /\ SmsCodeOk(S, u, e, S2.db[u].sms)))
+        \cup V("C13.disableNeedsProof",
+               \A u \in ch :
+                 (S2.db[u].totp = 0 /\ S.db[u].totp # 0 => e.act = "TotpRemove" /\ (TotpCodeOk(S, u, e) \/ RcOk(S, u, e)))
+                 /\ (S2.db[u].sms = 0 /\ S.db[u].sms # 0 => e.act = "SmsRemove" /\ (SmsCodeOk(S, u, e, S.db[u].sms) \/ RcOk(S, u, e))))
+        \cup V("C13.regenOnlyByRoute",
+               \A u \in ch : S2.db[u].rcg # S.db[u].rcg => e.act \in {"RecoveryRegen", "TotpConfirm", "SmsConfirm"})
+        \cup V("C13.emailAuthorised",
+               c.emailAuth => \A u \in ch :
+                  (S2.db[u].totp # S.db[u].totp /\ S2.db[u].totp # 0) \/ (S2.db[u].sms # S.db[u].sms /\ S2.db[u].sms # 0)
+                    => S.sess[b].tfaAuthed /\ ~S2.sess[b].tfaAuthed))
+  \cup (IF IsReq(e) /\ ~S.sess[e.b].tfaAuthed /\ S2.sess[e.b].tfaAuthed
+        THEN V("C13.emailAuthSound", e.act = "EmailVerifyEnd" /\ e.tok >= 1 /\ e.tok = S.sess[e.b].tfaTok
+                                     /\ S.sess[e.b].uid # NONE /\ ~S.sess[e.b].half)
+        ELSE {})
+
+-----------------------------------------------------------------------------
+(* C14 - OAuth2 callbacks need the session's own unused state, bind the named identity *)
+
+C14_V(S, S2, c, e, r) ==
+  IF e.act # "OAuthCallback" \/ ~Has(c, "oauth2") THEN {}
+  ELSE LET b == e.b
+           matched == S.sess[b].oState # 0 /\ e.tok >= 1 /\ e.tok = S.sess[b].oState /\ <<"os", e.tok>> \notin S.spent
+           dbSame == \A u \in Pids : S2.db[u].ex = S.db[u].ex
+       IN
+       V("C14.needsOwnState", (Changed(S, S2, b, "uid") /\ ~RmAuth(S, c, e)) \/ ~dbSame => matched /\ e.outcome \in {"x", "y"})
+       \cup (IF matched /\ Flushed(r)
+             THEN V("C14.stateSpent", S2.sess[b].oState = 0 /\ ~S2.sess[b].oHas) ELSE {})
+       \cup (IF Changed(S, S2, b, "uid") /\ S2.sess[b].uid # NONE /\ ~RmAuth(S, c, e)
+             THEN V("C14.bindsIdentity", S2.sess[b].uid = OPid(e.prov, e.outcome)) ELSE {})
+       \cup (IF e.outcome \notin {"x", "y"}
+             THEN V("C14.errorLogsNobodyIn", (~Changed(S, S2, b, "uid") \/ RmAuth(S, c, e)) /\ dbSame) ELSE {})
+
+-----------------------------------------------------------------------------
+(* C19 - registration creates exactly one account, never overwrites *)
+
+C19_V(S, S2, c, e) ==
+  IF e.act # "RegisterPost" \/ ~Has(c, "register") THEN {}
+  ELSE LET u == e.pid
+           b == e.b
+           uidSame == UidSameModuloMW(S, S2, c, e)
+       IN
+       IF ~e.valid THEN V("C19.invalidCreatesNothing", S2.db = S.db /\ uidSame)
+       ELSE IF S.db[u].ex THEN V("C19.neverOverwrites", S2.db = S.db /\ uidSame)
+       ELSE V("C19.createsExactlyOne", S2.db[u].ex /\ S2.db[u].pw = e.pw /\ S2.db[u].arb = {}
+                                       /\ \A v \in Pids \ {u} : S2.db[v] = S.db[v])
+            \cup V("C19.autoLoginIffNoConfirm",
+                   IF Has(c, "confirm") THEN uidSame /\ ~S2.db[u].conf /\ S2.db[u].cTok >= 1
+                   ELSE S2.sess[b].uid = u)
 
 -----------------------------------------------------------------------------
 
 PropViolations(S, S2, c, e, r) ==
-  C01_V(S, S2, c, e) \cup C10_V(S, S2, c, e)
+  C01_V(S, S2, c, e) \cup C02_V(S, S2, c, e) \cup C03_V(S, S2, c, e, r) \cup C04_V(S, S2, c, e)
+  \cup C05_V(S, S2, c, e) \cup C06_V(S, S2, c, e) \cup C07_V(S, S2, c, e, r) \cup C09_V(S, S2, c, e, r)
+  \cup C10_V(S, S2, c, e) \cup C12_V(S, S2, c, e) \cup C13_V(S, S2, c, e) \cup C14_V(S, S2, c, e, r)
+  \cup C19_V(S, S2, c, e)
 
 =============================================================================
